@@ -180,12 +180,13 @@ int main(int argc, char** argv)
   MPI_Comm_size(MPI_COMM_WORLD, &W);
   if (argc < 5) { MPI_Finalize(); return 2; }
   int R = atoi(argv[1]), bound = atoi(argv[2]), shard = atoi(argv[3]), nshards = atoi(argv[4]);
-  long after_i = -1; int after_m = -1, onlymode = -1; bool verbose = false;
+  long after_i = -1; int after_m = -1, onlymode = -1; bool verbose = false, nameonly = false;
   const char* single = nullptr; const char* odarg = nullptr;
   long dummy[64] = {0}; long* score = dummy;
   for (int a = 5; a < argc; a++) {
     sscanf(argv[a], "after=%ld:%d", &after_i, &after_m); sscanf(argv[a], "onlymode=%d", &onlymode);
     if (!strcmp(argv[a], "verbose")) verbose = true;
+    if (!strcmp(argv[a], "nameonly")) nameonly = true;
     if (!strncmp(argv[a], "prog=", 5)) single = argv[a] + 5;
     if (!strncmp(argv[a], "od=", 3)) odarg = argv[a] + 3;
     if (!strncmp(argv[a], "score=", 6) && rank == 0) { int fd = open(argv[a] + 6, O_RDWR); if (fd >= 0) { score = (long*)mmap(nullptr, 4096, PROT_READ | PROT_WRITE, MAP_SHARED, fd, 0); close(fd); } }
@@ -208,7 +209,8 @@ int main(int argc, char** argv)
   if (single) { singleP = parse_prog(single, R); dists.assign(1, std::vector<int>(R, 0)); for (int r = 0; r < R; r++) dists[0][r] = (int)singleP[r].size(); }
   long index = -1, generated = 0, relevant = 0, runs = 0, multi = 0, states = 0, transitions = 0, outcomes_total = 0, nviol = 0, conflicts = 0, undefined_progs = 0;
   auto publish = [&]() { long c[] = {generated, relevant, runs, multi, states, transitions, outcomes_total, nviol, conflicts, undefined_progs}; for (int i = 0; i < 10; i++) score[2 + i] = c[i]; };
-  for (size_t di = 0; di < dists.size(); di++) {
+  bool break_all = false;
+  for (size_t di = 0; di < dists.size() && !break_all; di++) {
     auto& k = dists[di];
     if ((int)di < od_dist) continue;
     int n = 0; for (int v : k) n += v;
@@ -232,7 +234,9 @@ int main(int argc, char** argv)
           for (int j = 0; j < n; j++) P[owner[j]].push_back(alpha[od[j]]);
           bool cross = false;     // two different origins on one cell
           for (int a = 0; a < n; a++) for (int b2 = a + 1; b2 < n; b2++) if (owner[a] != owner[b2] && alpha[od[a]].t == alpha[od[b2]].t && alpha[od[a]].c == alpha[od[b2]].c) cross = true;
-          if (single && rank == 0) printf("P index=%ld prog=%s\n", index, prog_str(P).c_str());
+          if ((single || nameonly) && rank == 0) printf("P index=%ld prog=%s\n", index, prog_str(P).c_str());
+          if (nameonly) { more = false; di = dists.size(); break_all = true; }
+          if (break_all) break;
           for (int mode = 0; mode < 3; mode++) {
             if (index == after_i && mode <= after_m) continue;
             if (onlymode >= 0 && mode != onlymode) continue;
